@@ -745,6 +745,28 @@ func pubScenario(w *vfWorld, r *vfkit.R, focus string, idx int) {
 		c := a.cs[rng.Intn(len(a.cs))]
 		sc.pubStep(a, c, i)
 	}
+	// a participant unsubscribes and publishes again through the very session which asked to unsubscribe
+	if kind != "sys" {
+		for _, a := range sc.actors {
+			if a.role != "member" && a.role != "peerA" {
+				continue
+			}
+			c := a.cs[len(a.cs)-1]
+			name := sc.nameFor(a)
+			if !c.attachState()[name] {
+				c.sub(name, nil)
+				w.e.vfQuiesce()
+			}
+			if c.attachState()[name] {
+				f := c.leave(name, true)
+				w.e.vfQuiesce()
+				sc.log("%s unsubscribes through session %s -> %s, then publishes through the same session", a.role, c.name, codeStr(f))
+				r.Hit("publish_after_unsubscribe_same_session")
+				sc.pubStep(a, c, 100)
+			}
+			break
+		}
+	}
 	// me / fnd are never writable
 	if focus == "C03" && rng.Intn(2) == 0 {
 		a := sc.actors[0]
